@@ -146,6 +146,14 @@ func (c *FuncCtx) eval0(st *State, e ast.Expr) Value {
 			return IntV{c.wrapTo(st, Neg(x), typ, n, "neg")}
 		case token.ADD:
 			return c.eval(st, n.X)
+		case token.AND:
+			// &x of a struct value (a parameter, a literal): pointers to structs and struct values are
+			// the same symbolic object here (no pointer identity, no aliasing through it is modelled:
+			// sound for reads; a write through the pointer in a callee is that callee's frame)
+			if v, ok := c.eval(st, n.X).(*StructV); ok {
+				return v
+			}
+			panic(verr("unsupported address-of at %s", c.prog.pos(n)))
 		case token.XOR:
 			x := c.evalInt(st, n.X)
 			typ := c.typeOf(n)
